@@ -330,6 +330,36 @@ impl<F: Write + Seek> Directory<F> {
         parent_id: u32,
         name: &str,
     ) -> io::Result<()> {
+        // The entries are relinked in memory before each change is written
+        // out.  If a write fails part-way, put the in-memory entries back as
+        // they were, so that the sibling tree stays a tree (a half-relinked
+        // tree can contain a cycle, and later lookups would never return).
+        let mut saved: Vec<(u32, DirEntry)> = Vec::new();
+        let result = self.remove_dir_entry_inner(parent_id, name, &mut saved);
+        if result.is_err() {
+            for (stream_id, dir_entry) in saved.into_iter().rev() {
+                *self.dir_entry_mut(stream_id) = dir_entry;
+            }
+        }
+        result
+    }
+
+    /// Like `dir_entry_mut`, but first records the entry's current value.
+    fn dir_entry_mut_saving(
+        &mut self,
+        stream_id: u32,
+        saved: &mut Vec<(u32, DirEntry)>,
+    ) -> &mut DirEntry {
+        saved.push((stream_id, self.dir_entry(stream_id).clone()));
+        self.dir_entry_mut(stream_id)
+    }
+
+    fn remove_dir_entry_inner(
+        &mut self,
+        parent_id: u32,
+        name: &str,
+        saved: &mut Vec<(u32, DirEntry)>,
+    ) -> io::Result<()> {
         // Find the directory entry with the given name below the parent.
         let mut stream_ids = Vec::new();
         let mut stream_id = self.dir_entry(parent_id).child;
@@ -363,7 +393,8 @@ impl<F: Write + Seek> Directory<F> {
             if child_id != consts::NO_STREAM {
                 // The child moves up one level; make it black so that it
                 // cannot end up adjacent to a red parent.
-                self.dir_entry_mut(child_id).color = Color::Black;
+                self.dir_entry_mut_saving(child_id, saved).color =
+                    Color::Black;
                 touched_ids.push(child_id);
             }
             child_id
@@ -382,16 +413,19 @@ impl<F: Write + Seek> Directory<F> {
             }
             let pred_left = self.dir_entry(predecessor_id).left_sibling;
             if pred_left != consts::NO_STREAM {
-                self.dir_entry_mut(pred_left).color = Color::Black;
+                self.dir_entry_mut_saving(pred_left, saved).color =
+                    Color::Black;
                 touched_ids.push(pred_left);
             }
             if pred_parent_id != stream_id {
-                self.dir_entry_mut(pred_parent_id).right_sibling = pred_left;
+                self.dir_entry_mut_saving(pred_parent_id, saved)
+                    .right_sibling = pred_left;
                 touched_ids.push(pred_parent_id);
-                self.dir_entry_mut(predecessor_id).left_sibling = left_sibling;
+                self.dir_entry_mut_saving(predecessor_id, saved)
+                    .left_sibling = left_sibling;
             }
             let color = self.dir_entry(stream_id).color;
-            let pred_entry = self.dir_entry_mut(predecessor_id);
+            let pred_entry = self.dir_entry_mut_saving(predecessor_id, saved);
             pred_entry.right_sibling = right_sibling;
             pred_entry.color = color;
             touched_ids.push(predecessor_id);
@@ -406,7 +440,8 @@ impl<F: Write + Seek> Directory<F> {
         stream_ids.pop();
         if let Some(&sibling_id) = stream_ids.last() {
             if self.dir_entry(sibling_id).left_sibling == stream_id {
-                self.dir_entry_mut(sibling_id).left_sibling = replacement_id;
+                self.dir_entry_mut_saving(sibling_id, saved).left_sibling =
+                    replacement_id;
                 let mut sector = self.seek_within_dir_entry(sibling_id, 68)?;
                 sector.write_le_u32(replacement_id)?;
             } else {
@@ -414,15 +449,17 @@ impl<F: Write + Seek> Directory<F> {
                     self.dir_entry(sibling_id).right_sibling,
                     stream_id
                 );
-                self.dir_entry_mut(sibling_id).right_sibling = replacement_id;
+                self.dir_entry_mut_saving(sibling_id, saved).right_sibling =
+                    replacement_id;
                 let mut sector = self.seek_within_dir_entry(sibling_id, 72)?;
                 sector.write_le_u32(replacement_id)?;
             }
         } else {
-            self.dir_entry_mut(parent_id).child = replacement_id;
+            self.dir_entry_mut_saving(parent_id, saved).child = replacement_id;
             let mut sector = self.seek_within_dir_entry(parent_id, 76)?;
             sector.write_le_u32(replacement_id)?;
         }
+        saved.push((stream_id, self.dir_entry(stream_id).clone()));
         self.free_dir_entry(stream_id)?;
         Ok(())
     }
